@@ -207,14 +207,18 @@ class ScriptDirectory:
             else:
                 if split_char is None:
                     # legacy behaviour for backwards compatibility
-                    version_locations = _split_on_space_comma.split(
-                        version_locations_str
-                    )
+                    version_locations = [
+                        x
+                        for x in _split_on_space_comma.split(
+                            version_locations_str
+                        )
+                        if x
+                    ]
                 else:
                     version_locations = [
                         x.strip()
                         for x in version_locations_str.split(split_char)
-                        if x
+                        if x.strip()
                     ]
         else:
             version_locations = None
